@@ -489,6 +489,11 @@ def check_weight_invariant(eng, res, rule="R-WEIGHT-INVARIANT"):
                     elif sv is not None and wv is not None and src(sv) == src(wv):
                         ok = True
                         why = f"both fields copied from {src(sv)}"
+                    elif isinstance(node.value, ast.Name) and src(w) in (f"{node.value.id}.sum()", f"np.sum({node.value.id})") \
+                            and not any(isinstance(x, ast.Name) and x.id == node.value.id and isinstance(x.ctx, ast.Store)
+                                        for s_ in sibs[min(sibs.index(ws[0]), sibs.index(node)):max(sibs.index(ws[0]), sibs.index(node)) + 1] for x in ast.walk(s_)):
+                        ok = True  # the list is held in a local: `x.transitions = T` and `x.weight = np.sum(T)` for the same T
+                        why = f"weight = sum of the local list {node.value.id} stored as the list"
                     else:
                         why = f"weight stored from {src(w)[:50]}, not from the list's sum / the same source descriptor"
                 res.ob(rule, fi, f"store:{fi.name}", "every store of a transition list is paired with the store of its sum (or of the source's weight) as weight: weight == Σ transitions",
